@@ -45,6 +45,7 @@ T=[
  ("fx-describe-tpl-unescaped","C15","897e100","replays/C15/fixed/tpl-describe-unescaped.json","describe() printed template/string literal text unescaped (`\\\\d${string}` came back as `\\d${string}`, i.e. d...)"),
  ("fx-template-newline-regex-literal","C04","59849a8","replays/C04/fixed/template-newline-regex-literal.json","a line terminator in a template literal type ended up raw inside the emitted regex literal: successful compilation, module does not load"),
  ("fx-override-ignored-for-du-variant","C16","b8c0e78","replays/C16/fixed/override-ignored-for-du-variant.json","a named type first reached as a discriminated-union variant was registered without its namedTypeSchemaOverrides entry (definition depended on call order)"),
+ ("fx-named-reexport-self","C04","def0511","replays/C04/fixed/named-reexport-self.json","a named re-export leading back to itself (export { A as A } from \"./entry\" inside entry.ts) overflowed the stack during name resolution (SIGABRT)"),
  ("fx-describe-empty-union","C15","1a46d80","replays/C15/fixed/empty-union-described-as-parens.json","describe() printed never | never as \"()\" (not parseable)"),
 ]
 p='/verif/known_findings.json'
